@@ -16,7 +16,7 @@ CLAIMS = {
          "callers discharge callee preconditions at static call sites. Structural obligations: the static call graph has no recursion, every loop is a range loop (or carries a decreases clause), there are no goroutines, and os.WriteFile in the code generator is the only file-mutating call. "
          "Preconditions that remain are of three kinds, all listed in the contracts: injected collaborators are non-nil (composition root), resolvers are asked only about arguments they support (proved at ArgResolver), and a printed line fits the row / EndIndent follows Indent (proved at StepVerboseSwitchable)."),
    note=("Not proved: that the composition root (internal/gontainer, reflection-driven runtime) wires non-nil collaborators and that validation precedes the compile steps (Compiler.Compile is proved to stop at the first failing step; the step order is wiring), termination and panic-freedom of external libraries (yaml.v3, cobra, gonum cycle enumeration, goimports, text/template), stdout write failures (A13). "
-         "Trusted (bodies not verified): regex.Match, types.IsPrimitive, template.createDefaultFunctions, template.(tpl).exec, runner.DecorateStepVerboseSwitchable, input.init#2. cmd.buildRunner is verified against assumed contracts of the DI runtime and of the generated container (contracts/assumed/container.spec). Functions not under contract have their callees' effects havoc'ed. A structural obligation per package guards the value semantics of slices (no element store through, and no append to a re-slice of, a slice received by value). " + TB),
+         "Trusted (bodies not verified): types.IsPrimitive, template.createDefaultFunctions, template.(tpl).exec, input.init#2 (regex.Match is verified against assumed contracts of regexp; DecorateStepVerboseSwitchable under the precondition that the decorated service implements Step). Repository functions without contract are executed in place at their call sites. cmd.buildRunner is verified against assumed contracts of the DI runtime and of the generated container (contracts/assumed/container.spec). Functions not under contract have their callees' effects havoc'ed. A structural obligation per package guards the value semantics of slices (no element store through, and no append to a re-slice of, a slice received by value). " + TB),
    design="DESIGN.md section 4 C12"),
  "C05": dict(
    technique="contract-based deductive verification: contracts on the real scope conversion and shared-on-contextual validator over go/ssa with a ghost edge relation for the library graph, SMT",
